@@ -1170,6 +1170,65 @@ def _min_loop_guard(ctx, res, b, s, p, pick):
     return True, ''
 
 
+def rule_initial_pick(ctx, res):
+    """SEED: a search starts from the MAX_BUCKET_SIZE closest *good* contacts: the candidate list is filled from
+    `closest_nodes(target).filter(status == Good).take(8)` - the cut-off counts good nodes (applied after the filter), so
+    that questionable contacts in front of the good ones cannot starve the search of its starting points."""
+    from .c05 import pipeline
+    from .c10 import status_atom
+    b = ctx.co('action::lookup::TableLookup::new')
+    res.touch(b)
+    s = Sym(b)
+    s.run(env=lib.coroutine_param_env(b))
+    res.paths += len(s.paths)
+    ok = True
+    n = 0
+    why = ''
+    k = ctx.f.const_value('bucket::MAX_BUCKET_SIZE')
+    for p in s.paths:
+        for e in p.effects:
+            if not (e[0] == 'call' and e[1] == 'action::lookup::insert_sorted_node'):
+                continue
+            n += 1
+            nx = find_calls(e[2][2] if len(e[2]) > 2 else e[2][-1], '::next') or [x for a in e[2] for x in find_calls(a, '::next')]
+            if not nx:
+                ok, why = False, 'the inserted node is not drawn from an iterator'
+                continue
+            it = strip_transparent(nx[0][2][0])
+            while isinstance(it, tuple) and it and it[0] == 'call' and it[1].split('::')[-1] == 'into_iter':
+                it = strip_transparent(it[2][0])
+            pl = pipeline(it)
+            stages = [x for x in pl if x[0] not in ('iter', 'into_iter', 'copied', 'cloned')]
+            names = [x[0] for x in stages]
+            src = strip_transparent(stages[0][1]) if stages and stages[0][0] == 'src' else None
+            if not (src and src[0] == 'call' and src[1] == 'table::RoutingTable::closest_nodes' and len(names) >= 3 and names[-1] == 'take' and all(x == 'filter' for x in names[1:-1])):
+                ok, why = False, 'initial candidates are not closest_nodes(..).filter(..).take(..): %s' % names
+                continue
+            if term_int(stages[-1][1]) != k or k != 8:
+                ok, why = False, 'the cut-off is not MAX_BUCKET_SIZE'
+            tgt = strip_transparent(src[2][1])
+            if not (is_param(tgt, 'target_id') or field_chain(tgt)[-1:] == ['target_id']):
+                ok, why = False, 'closest_nodes is not asked for the searched id'
+            good = False
+            for st in stages[1:-1]:
+                cl = st[1]
+                if isinstance(cl, tuple) and cl and cl[0] == 'closure' and ctx.f.body(cl[1]) is not None:
+                    cb = ctx.f.body(cl[1])
+                    res.touch(cb)
+                    cs = Sym(cb)
+                    cs.run()
+                    try:
+                        tab = lib.bool_table(cs.complete_paths(), lambda lit, c: (('S', status_atom(ctx, lit, lambda call: True)) if status_atom(ctx, lit, lambda call: True) is not None else None))
+                        bad, _n = tab.compare({'S': ['Good', 'Questionable', 'Bad']}, lambda v: v['S'] == 'Good')
+                        good = good or not bad
+                    except Lost:
+                        pass
+            if not good:
+                ok, why = False, 'no filter keeps exactly the good contacts'
+    res.check(ok and n >= 1, 'FLOW', b.path, 'a search is seeded with the first MAX_BUCKET_SIZE (8) *good* contacts in closest-first order: closest_nodes(target).filter(status == Good).take(8), the cut-off applied after the filter',
+              detail=why, key='initial-pick')
+
+
 def rule_round_nonempty(ctx, res):
     """ROUND-NONEMPTY: an iterative round is started only with at least one node to query.
 
